@@ -64,7 +64,10 @@ func c08Program(r *explore.Run, p *prog) {
 	// deviation; control-flow trees (whose acceptance does not depend on options) see one
 	// deviation only in the thorough tier.
 	d := 1
-	if p.Case != nil && strings.HasPrefix(p.Case.Family, "F2") && !r.Thorough() {
+	if p.Case != nil && (strings.HasPrefix(p.Case.Family, "F2") || strings.HasPrefix(p.Case.Family, "F3")) && !r.Thorough() {
+		d = 0
+	}
+	if strings.HasPrefix(p.Sig, "F5/") && !r.Thorough() {
 		d = 0
 	}
 	for _, c := range nagax.SPIRVConfigs(d) {
@@ -125,10 +128,17 @@ func c08Program(r *explore.Run, p *prog) {
 
 func runC08() int {
 	r := explore.New("C08")
-	forEachProgram(r, quickFamilies(r), wgen.Micros, func(p *prog) { c08Program(r, p) })
+	// every family that other checks execute or inspect is also an acceptance obligation here
+	// (those checks skip a program the front end rejects, attributing the rejection to C08)
+	fams := append(quickFamilies(r), wgen.F3(r.Thorough()), wgen.F4Access(), wgen.F15Zero(), wgen.F15Ops())
+	texts := append([]wgen.Micro{}, wgen.Micros...)
+	for _, fp := range wgen.F5Programs(r.Thorough()) {
+		texts = append(texts, wgen.Micro{Name: fp.Sig, Src: fp.Src})
+	}
+	forEachProgram(r, fams, texts, func(p *prog) { c08Program(r, p) })
 	r.Sample(map[string]any{"program": wgen.Micros[0].Name, "stages": "parse, lower, validate, Compile, spirv x configs(d<=1), hlsl x configs, msl x configs, glsl x configs x entry points"})
 	printKeys(r)
-	return r.Finish("every program of F1, F2 (node budget per tier) and the feature micro-programs x every stage x every backend option set within 1 deviation of the default; an error return is a violation; distinct = distinct default-option SPIR-V binaries", []string{
+	return r.Finish("every program of F1, F2 (node budget per tier), F3 memory shapes, F4acc access forms, F15 hostile-data programs, F5 interface programs and the feature micro-programs x every stage x every backend option set within 1 deviation of the default; an error return is a violation; distinct = distinct default-option SPIR-V binaries", []string{
 		"generated programs are valid WGSL by construction (conservative grammar; unreachable code and spec-debatable constructs are not generated)",
 		"GLSL ES profiles are not required to express texture/IO micro-programs"})
 }
